@@ -21,6 +21,19 @@ pub mod sync {
 pub mod os {
     pub mod unix { pub mod fs {
         use vstd::prelude::*;
+        use crate::spec::*;
+        /// symlink(2): creates a symbolic link at `link` holding the text of `target` verbatim;
+        /// fails (nothing changes) if anything exists at `link`
+        #[verifier::external_body]
+        pub fn symlink<A: crate::shims::std::path::PathArg, B: crate::shims::std::path::PathArg>(target: A, link: B, Tracked(w): Tracked<&mut World>) -> (r: crate::shims::std::io::Result<()>)
+            ensures
+                old(w).healthy == final(w).healthy, world_wf(*old(w)) ==> world_wf(*final(w)), hist_ext(*old(w), *final(w)),
+                r is Err ==> final(w).fs == old(w).fs && final(w).hist == old(w).hist,
+                r is Ok ==> !exists_at(old(w).fs, link.pathv())
+                    && final(w).fs == (Fs { links: old(w).fs.links.insert(link.pathv(), target.pathv()), ..old(w).fs })
+                    && final(w).hist == old(w).hist.push(final(w).fs),
+                old(w).healthy && !exists_at(old(w).fs, link.pathv()) && old(w).fs.dirs.contains(parent_of(link.pathv())) ==> r is Ok,
+        { unimplemented!() }
         /// st_dev / st_ino etc.: values unconstrained
         pub trait MetadataExt { fn dev(&self) -> u64; fn ino(&self) -> u64; fn mode(&self) -> u32; fn size(&self) -> u64; }
         impl MetadataExt for crate::shims::std::fs::Metadata {
